@@ -48,6 +48,12 @@ def main():
   sh(['rm', '-rf', copy])
   os.makedirs(copy)
   sh('rsync -a --exclude .git --exclude "*.egg-info" /repo/ %s/' % copy)
+  # the demonstration runs on the (still clean) copy first, never on /repo
+  # itself: some demos create files next to the sources
+  demo = os.path.join(d, 'demo.py')
+  rc0, o0 = sh(['/venv/bin/python', demo], env={'VERIF_REPO': copy},
+               cwd='/tmp', timeout=1800)
+  sh('find %s -name "*.db" -newer %s -delete' % (copy, demo))
   rc, out = sh('patch -p1 --no-backup-if-mismatch < %s' % os.path.join(
       d, 'patch.diff'), cwd=copy)
   ev = {'name': name, 'property': prop, 'patch_applies': rc == 0,
@@ -55,9 +61,6 @@ def main():
   if rc != 0:
     ev['patch_output'] = out[-800:]
   else:
-    demo = os.path.join(d, 'demo.py')
-    rc0, o0 = sh(['/venv/bin/python', demo], env={'VERIF_REPO': '/repo'},
-                 cwd='/tmp', timeout=1800)
     rc1, o1 = sh(['/venv/bin/python', demo], env={'VERIF_REPO': copy},
                  cwd='/tmp', timeout=1800)
     ev['demo_clean'] = {'exit': rc0, 'tail': o0.strip()[-300:]}
